@@ -73,6 +73,31 @@ def run(chk):
     # the grids of the spreadsheet targets (r and rho value iterators): the same steps
     from .c19 import excel_eam
     chk.attempt("O5x", lambda: excel_eam(chk, P, rule="C11.O5"))
+    # "the table written has exactly that many rows on exactly that grid": the targets with two grids (separation and density)
+    # write each block on its own grid - the output comparisons of C03/C04/C05/C19, evaluated here on this run's tree
+    from ..report import RuleView
+    chk.rule("C11.W", "EAM targets: embedding blocks on the (nrho, drho) grid, density and pair blocks on the (nr, dr) grid, in the "
+                      "tabulation classes and in the procedural writers", 150)
+    view = RuleView(chk, "C11.W")
+    for cls, spec in (("SetFL_EAMTabulation", "setfl"), ("SetFL_FS_EAMTabulation", "setfl_fs"), ("TABEAM_EAMTabulation", "tabeam"),
+                      ("TABEAM_FinnisSinclair_EAMTabulation", "tabeam_fs")):
+        chk.attempt("W/" + cls, lambda cls=cls, spec=spec: W.eam_class_vs_spec(view, "C11.W/" + spec, P, cls, spec))
+    for mod, fn, spec in (("atsim.potentials._lammpsWriteEAM", "writeSetFL", "setfl_api"),
+                          ("atsim.potentials._lammpsWriteEAM", "writeSetFLFinnisSinclair", "setfl_fs_api"),
+                          ("atsim.potentials._dlpoly_writeTABEAM", "writeTABEAM", "tabeam_api"),
+                          ("atsim.potentials._dlpoly_writeTABEAM", "writeTABEAMFinnisSinclair", "tabeam_fs_api"),
+                          ("atsim.potentials._lammpsWriteEAM", "writeFuncFL", "funcfl")):
+        chk.attempt("W/" + fn, lambda mod=mod, fn=fn, spec=spec: W.eam_api_vs_spec(view, "C11.W/" + spec, P, mod, fn, spec))
+    # every registered target (also ones added later): its write() runs on symbolic grids; a row count that hangs on a
+    # floating-point comparison / a float-stepped range is reported by the .X rule of this check
+    from .c16 import registered_targets, write_target
+    chk.rule("C11.T", "every target of the factory table writes its table for symbolic (cutoff, nr[, cutoff_rho, nrho])", 10)
+    for target, tc in registered_targets(P):
+        def one(target=target, tc=tc):
+            write_target(P, tc)
+            chk.ob("C11.T", "target %s (%s): written with integer-controlled row loops" % (target, tc.name), True, site=tc.site_of("write"),
+                   key="C11.T|%s" % target)
+        chk.attempt("T/" + target, one)
     chk.exhaustive = True
     chk.assume("int() of an option string that is not a number is handled by _get_or_none (C16)")
     chk.assume("floating-point rounding of cutoff/dr is bounded by 4 ulp of the quotient (quotients up to 2e4)")
